@@ -3,6 +3,7 @@ package rt
 import (
 	"errors"
 	"fmt"
+	"math"
 	"reflect"
 	"sort"
 	"testing"
@@ -489,6 +490,41 @@ func TestC10MapTypes(t *testing.T) {
 	{
 		n, g, p := mapPairs(map[int]int(nil))
 		check("nil map", n, g, p, false)
+	}
+	{
+		// keys that are not equal to themselves: the value must come from the entry, not from a lookup
+		nan := math.NaN()
+		m := map[float64]int{1.5: 10}
+		m[nan] = 7
+		m[nan] = 8
+		n, g, p := mapPairs(m)
+		check("map[float64]int with two NaN keys", n, g, p, true)
+	}
+	{
+		nan := math.NaN()
+		m := map[any]any{"a": 1}
+		m[nan] = "x"
+		m[[2]float64{1, nan}] = "y"
+		m[float32(float32(nan))] = nil
+		n, g, p := mapPairs(m)
+		check("map[any]any with NaN (and array containing NaN) keys", n, g, p, true)
+	}
+	{
+		type key struct {
+			F float64
+			S string
+		}
+		m := map[key]string{{1, "a"}: "p"}
+		m[key{math.NaN(), "n"}] = "q"
+		n, g, p := mapPairs(m)
+		check("map[struct{F float64;S string}]string with a NaN field", n, g, p, true)
+	}
+	{
+		m := map[complex128]int{}
+		m[complex(math.NaN(), 0)] = 3
+		m[complex(1, 2)] = 4
+		n, g, p := mapPairs(m)
+		check("map[complex128]int with a NaN key", n, g, p, true)
 	}
 	{
 		n, g, p := mapPairs(map[[2]int]struct{ A any }{{1, 2}: {nil}, {0, 0}: {3}})
